@@ -27,6 +27,27 @@ func be8(v uint64) []byte {
 }
 
 // strictHex decodes an even-length string of hex digits; ok=false otherwise.
+// undecorate removes what conventional hex notations put around and between the digits — ASCII white space, ':' and '_'
+// separators, one leading 0x / 0X — and reports whether anything was removed. The statement says that malformed text is
+// rejected; whether " 00", "0x00" or "00:01" is malformed or a notation of the bytes 00 / 00 01 it leaves open. Such text
+// is unclassified: it may be refused, and if it is accepted it must mean exactly the digits it contains.
+func undecorate(s string) (digits string, decorated bool) {
+	var sb strings.Builder
+	for i := 0; i < len(s); i++ {
+		switch s[i] {
+		case ' ', '\t', '\n', '\r', ':', '_':
+			decorated = true
+		default:
+			sb.WriteByte(s[i])
+		}
+	}
+	d := sb.String()
+	if strings.HasPrefix(d, "0x") || strings.HasPrefix(d, "0X") {
+		d, decorated = d[2:], true
+	}
+	return d, decorated
+}
+
 func strictHex(s string) ([]byte, bool) {
 	if len(s)%2 != 0 {
 		return nil, false
@@ -214,6 +235,20 @@ func checkC17(c c17Case) verdict {
 			return ok(false, append(labels, "empty")...)
 		}
 		if !allIn(s, hexDigits) {
+			if d, dec := undecorate(s); dec && allIn(d, hexDigits) && len(d) <= 16 {
+				// a conventional notation around hex digits: unclassified; if accepted it must mean the digits it contains
+				labels = append(labels, "decorated-hex")
+				if err == nil {
+					v := new(big.Int)
+					if d != "" {
+						v.SetString(d, 16)
+					}
+					if !bytes.Equal(got, be8(v.Uint64())) {
+						return bad(true, labels, "ParseHexTimestamp(%q) = %x; the digits it contains spell %x", s, got, be8(v.Uint64()))
+					}
+				}
+				return ok(false, labels...)
+			}
 			labels = append(labels, "malformed")
 			if err == nil {
 				return bad(true, labels, "ParseHexTimestamp(%q) accepted malformed text as %x (%d bytes)", s, got, len(got))
@@ -245,16 +280,37 @@ func checkC17(c c17Case) verdict {
 	case "HexInputToOCRA":
 		in, err := otp.HexInputToOCRA(c.F[0], c.F[1], c.F[2], c.F[3], c.F[4])
 		var want [5][]byte
-		valid := true
+		valid, decorated := true, false
 		for i, f := range c.F {
 			if f == "" {
 				continue
 			}
 			b, okk := strictHex(f)
 			if !okk {
+				if d, dec := undecorate(f); dec {
+					if b2, ok2 := strictHex(d); ok2 {
+						// a conventional notation around well-formed digits (or around nothing): unclassified
+						decorated = true
+						want[i] = b2
+						continue
+					}
+				}
 				valid = false
 			}
 			want[i] = b
+		}
+		if valid && decorated {
+			labels = append(labels, "decorated-hex")
+			if err != nil {
+				return ok(false, append(labels, "refused")...)
+			}
+			got := [5][]byte{in.Counter, in.Challenge, in.Password, in.SessionInfo, in.Timestamp}
+			for i := range got {
+				if !bytes.Equal(got[i], want[i]) {
+					return bad(true, labels, "HexInputToOCRA(%q) accepts the decorated field %d as %x; the digits it contains spell %x", c.F, i, got[i], want[i])
+				}
+			}
+			return ok(false, append(labels, "accepted-as-its-digits")...)
 		}
 		if !valid {
 			labels = append(labels, "malformed")
